@@ -19,7 +19,10 @@ REPO = os.environ.get("LSV_REPO", "/repo")
 def all_props():
     import json as J
     m = J.load(open(os.path.join(HERE, "MANIFEST.json")))
-    return [c["property_id"] for c in m["checks"]]
+    props = [c["property_id"] for c in m["checks"]]
+    if "C13" not in props and os.path.exists(os.path.join(HERE, "lsv", "rules", "C13.py")):
+        props.append("C13")
+    return sorted(props)
 
 
 def make_copy(entry, root):
